@@ -70,7 +70,14 @@ def run(m: Model, r: Report, tier: str) -> None:
     tr.reader_loop_total(r, "R3", rw, ("self._read_queue.put(", "self.send_alive_msg("))
 
     # ---------------------------------------------------------------- R4
-    mt = [n for n in walk_no_nested(rw.node) if isinstance(n, ast.Match) and ast.unparse(n.subject) == "hdr.CWord"]
+    # roles of the frame parts: the tuple unpacked from _read_frame()
+    fr_roles: dict[str, str] = {}
+    for n in ast.walk(rw.node):
+        if isinstance(n, ast.Assign) and isinstance(n.targets[0], ast.Tuple) and "self._read_frame()" in ast.unparse(n.value) and len(n.targets[0].elts) == 3:
+            fr_roles = {e.id: role for e, role in zip(n.targets[0].elts, ("HDR", "REQ_HDR", "DATA")) if isinstance(e, ast.Name)}
+    if len(fr_roles) != 3:
+        raise AnalysisError(f"{rw.qualname}: `hdr, req_hdr, data = await self._read_frame()` not found")
+    mt = [n for n in walk_no_nested(rw.node) if isinstance(n, ast.Match) and m.mtext(rw, n.subject, fr_roles) == "HDR.CWord"]
     if len(mt) != 1:
         raise AnalysisError(f"{rw.qualname}: match on hdr.CWord not found")
     arms = {ast.unparse(c.pattern): c for c in mt[0].cases}
@@ -86,9 +93,9 @@ def run(m: Model, r: Report, tier: str) -> None:
     # ---------------------------------------------------------------- R5
     data_arm = arms.get("HSFZStatus.Ack | HSFZStatus.Data")
     default = arms.get("_")
-    r.check(data_arm is not None and any("self._read_queue.put((hdr, req_hdr, data))" in ast.unparse(s) for s in data_arm.body), "R5",
+    r.check(data_arm is not None and any("self._read_queue.put((HDR, REQ_HDR, DATA))" in m.mtext(rw, s, fr_roles) for s in data_arm.body), "R5",
             f"{rw.qualname}#data-arm", "ack and data frames must be queued as (hdr, req_hdr, data)", loc=rw.loc)
-    r.check(default is not None and any("self._read_queue.put(hdr.CWord)" in ast.unparse(s) for s in default.body), "R5",
+    r.check(default is not None and any("self._read_queue.put(HDR.CWord)" in m.mtext(rw, s, fr_roles) for s in default.body), "R5",
             f"{rw.qualname}#control-word-arm", "other control words must be queued as int so that consumers see the error", loc=rw.loc)
     uf = m.require_function(f"{HSFZ}.HSFZConnection._unpack_frame")
     umt = [n for n in walk_no_nested(uf.node) if isinstance(n, ast.Match)]
